@@ -259,8 +259,7 @@ def run_insitu(case, res):
                 return
         st["insitu_hooks"] = st.get("insitu_hooks", 0) + 1
     ctx.iter_hook = hook
-    run = engine.run_solve(built.objfun, built.x0.copy(), ctx=ctx, timeout=90, solve_kwargs=built.kw)
-    run.built, run.cfg = built, cfg
+    run = gen.run_cfg(cfg, ctx, timeout=90, built=built)
     oracles.common_stats(run, st)
     res["viol"].extend(viol)
     if run.timeout:
